@@ -565,6 +565,48 @@ for _u in UNITS[-3:]:
     _u.replay = dedup_replay
 
 
+def pseudo_replay(inputs, clause):
+    """real NlaIII-like molecule capped at one fragment with two more matching fragments offered (overflow 2): tag a pseudo-read"""
+    import pysam
+    from pyvc.contract import import_real
+    Fragment = import_real('singlecellmultiomics/fragment/fragment.py', 'Fragment')
+    Mol = import_real(FM, 'Molecule')
+    header = pysam.AlignmentHeader.from_dict({'HD': {'VN': '1.6'}, 'SQ': [{'SN': 'chr1', 'LN': 1000}]})
+
+    def seg(name):
+        s = pysam.AlignedSegment(header)
+        s.query_name, s.reference_id, s.reference_start = name, 0, 100
+        s.query_sequence, s.cigartuples, s.mapping_quality, s.flag = 'ACGTACGTAC', [(0, 10)], 60, 0
+        s.query_qualities = pysam.qualitystring_to_array('I' * 10)
+        for t, v in (('SM', 'cell'), ('RX', 'ACG'), ('MX', 'x'), ('BC', 'AAAA')):
+            s.set_tag(t, v)
+        return s
+    m = Mol(Fragment([seg('q0'), None]), max_associated_fragments=1)
+    for i in (1, 2):
+        try:
+            m.add_fragment(Fragment([seg('q%d' % i), None]))
+        except OverflowError:
+            pass
+    m.get_cut_site = lambda: ('chr1', 100, False)
+    pseudo = seg('pseudo')
+    m.write_tags_to_psuedoreads([pseudo])
+    tags = dict(pseudo.get_tags())
+    want_tf = len(m.fragments) + m.overflow_fragments
+    obs = {'outcome': 'return', 'value': {'TF': tags.get('TF'), 'members': len(m.fragments), 'overflow': m.overflow_fragments,
+                                          'SM': tags.get('SM'), 'DS': tags.get('DS'), 'RX': tags.get('RX'), 'MI': tags.get('MI')}}
+    failed = []
+    if tags.get('TF') != want_tf:
+        failed.append({'clause': 'fragment_count', 'TF': tags.get('TF'), 'expected': want_tf})
+    if tags.get('SM') != 'cell' or tags.get('DS') != 100:
+        failed.append({'clause': 'sample_and_site'})
+    if tags.get('RX') != m.umi or tags.get('MI') != 'AAAA' + m.umi:
+        failed.append({'clause': 'umi_barcode_and_molecule_identifier'})
+    return {'status': 'confirmed' if failed else 'not-reproduced', 'observed': obs, 'failed': failed}
+
+
+pseudo_tags.replay = pseudo_replay
+
+
 def pseudo_nosite_replay(inputs, clause):
     """real plain Molecule of a plain Fragment (no DS tag, no restriction site): tag a pseudo-read"""
     import pysam
